@@ -1,1 +1,112 @@
-// harnesses for automerge/src/cursor.rs
+// G-IDS (cursor part): Cursor string / byte decoders and encoders (child module of automerge::cursor).
+use super::*;
+
+/// Build a &str from constrained bytes without std::str::from_utf8 (which explodes on symbolic input).
+macro_rules! ascii_str_harness {
+    ($name:ident, $n:expr) => {
+        /// Cursor::try_from(&str) is total on every ASCII string of this length.
+        #[kani::proof]
+        #[kani::unwind(7)]
+        fn $name() {
+            let b: [u8; $n] = kani::any();
+            let mut i = 0;
+            while i < $n {
+                kani::assume(b[i] < 0x80);
+                i += 1;
+            }
+            let s = unsafe { std::str::from_utf8_unchecked(&b) };
+            let r = Cursor::try_from(s);
+            let r_is_ok = r.is_ok();
+            match r {
+                Ok(c) => {
+                    assert!($n > 0, "the empty string is not a cursor");
+                    std::mem::forget(c);
+                }
+                Err(e) => {
+                    std::mem::forget(e);
+                }
+            }
+            // witnesses: at least one string of this length is rejected; for n > 0 one is accepted
+            kani::cover!(r_is_ok == ($n > 0), "accepted (n > 0) / rejected (n = 0)");
+            kani::cover!(!r_is_ok, "rejected");
+        }
+    };
+}
+ascii_str_harness!(cursor_str_total_len0, 0);
+ascii_str_harness!(cursor_str_total_len1, 1);
+ascii_str_harness!(cursor_str_total_len2, 2);
+ascii_str_harness!(cursor_str_total_len3, 3);
+ascii_str_harness!(cursor_str_total_len4, 4);
+
+macro_rules! prefixed_str_harness {
+    ($name:ident, $prefix:expr, $pn:expr, $n:expr) => {
+        /// Cursor::try_from(&str) is total on a fixed multi-byte first character followed by any ASCII tail.
+        #[kani::proof]
+        #[kani::unwind(7)]
+        fn $name() {
+            let p: &[u8] = $prefix.as_bytes();
+            let mut b: [u8; $pn + $n] = [0; $pn + $n];
+            let mut i = 0;
+            while i < $pn {
+                b[i] = p[i];
+                i += 1;
+            }
+            while i < $pn + $n {
+                let x: u8 = kani::any();
+                kani::assume(x < 0x80);
+                b[i] = x;
+                i += 1;
+            }
+            let s = unsafe { std::str::from_utf8_unchecked(&b) };
+            let r = Cursor::try_from(s);
+            kani::cover!(r.is_err(), "rejected");
+            std::mem::forget(r);
+        }
+    };
+}
+prefixed_str_harness!(cursor_str_total_2byte_first_t0, "\u{e9}", 2, 0);
+prefixed_str_harness!(cursor_str_total_2byte_first_t2, "\u{e9}", 2, 2);
+prefixed_str_harness!(cursor_str_total_3byte_first_t1, "\u{20ac}", 3, 1);
+prefixed_str_harness!(cursor_str_total_4byte_first_t1, "\u{10000}", 4, 1);
+
+macro_rules! bytes_harness {
+    ($name:ident, $n:expr) => {
+        /// Cursor::try_from(&[u8]) is total on every input of this length (the actor copy is
+        /// over-approximated: same length, arbitrary content).
+        #[kani::proof]
+        #[kani::unwind(12)]
+        #[kani::stub(<crate::ActorId as std::convert::From<&[u8]>>::from, crate::types::verif_kani::stub_actor_from_slice)]
+        fn $name() {
+            let b: [u8; $n] = kani::any();
+            let r = Cursor::try_from(&b[..]);
+            match r {
+                Ok(c) => {
+                    // what was accepted re-encodes to a prefix-compatible length
+                    let g = |i: usize| if i < $n { b[i] } else { 0xff };
+                    match &c {
+                        Cursor::Start => assert!(g(0) == 1 && g(1) == 1),
+                        Cursor::End => assert!(g(0) == 1 && g(1) == 2),
+                        Cursor::Op(o) => {
+                            assert!(g(0) == 0 || (g(0) == 1 && g(1) == 3));
+                            assert!(o.actor.to_bytes().len() + 3 <= $n);
+                        }
+                    }
+                    kani::cover!(true, "accepted");
+                    std::mem::forget(c);
+                }
+                Err(e) => {
+                    kani::cover!(true, "rejected");
+                    std::mem::forget(e);
+                }
+            }
+        }
+    };
+}
+bytes_harness!(cursor_bytes_total_len0, 0);
+bytes_harness!(cursor_bytes_total_len1, 1);
+bytes_harness!(cursor_bytes_total_len2, 2);
+bytes_harness!(cursor_bytes_total_len3, 3);
+bytes_harness!(cursor_bytes_total_len4, 4);
+bytes_harness!(cursor_bytes_total_len5, 5);
+bytes_harness!(cursor_bytes_total_len6, 6);
+bytes_harness!(cursor_bytes_total_len8, 8);
